@@ -182,10 +182,11 @@ def snapshot_file(path):
         con.close()
 
 
-def snapshot(ws, alias='default'):
+def snapshot(ws, alias=None):
     """Snapshot what the next process would see: on a copy, opened
     read-write so that a hot journal left by a crashed child is rolled back
     exactly as the next opener would do."""
+    alias = alias or getattr(ws, 'main_alias', 'default')
     d = ws.snapshot_copy()
     try:
         path = os.path.join(d, '%s.sqlite3' % alias)
